@@ -385,6 +385,20 @@ def decoder_keys(dec):
     return keys, cond
 
 
+def cached_table_adoption_rule(ctx, rule):
+    """A cached table is adopted only when the cache gave a truthy result: None (miss), an unparsable file and an EMPTY table (which
+    passes every per-element check vacuously) must lead to a download.  Shared with C02 (connected only when the tables are
+    complete) and C03 (the tables equal the device's)."""
+    m = ctx.model
+    fcb = m.func(TOC, 'TocFetcher._new_packet_cb')
+    gf = cfg_of(fcb)
+    adopt = [n for n in gf.nodes if n.kind == 'stmt' and isinstance(n.ast, ast.Assign) and norm(n.ast.targets[0]) == 'self.toc.toc']
+    ctx.need(len(adopt) == 1, 'fetcher: adoption of the cached table not found')
+    cvar = norm(adopt[0].ast.value)
+    ok = fact_key(cvar, True) in gf.fact_keys_at(adopt[0])
+    ctx.inst(rule, fcb, 'hit-requires-truthy-result', ok, 'a falsy cache result (None / unparsable / empty table) must not be adopted; guards %s' % sorted(gf.fact_keys_at(adopt[0])))
+
+
 VARIANTS = [
     M('R1', TC, "            except Exception as exp:\n                logger.warning('Error while parsing cache file [%s]:%s',", "            except ValueError as exp:\n                logger.warning('Error while parsing cache file [%s]:%s',", 'narrow handler'),
     M('R1', TC, "        cache_data = None\n        pattern = '%08X.json' % crc", "        cache_data = {}\n        pattern = '%08X.json' % crc", 'result starts non-None'),
